@@ -334,6 +334,7 @@ PREFIXES = {
     "loop-body": ["Loop", "LParen", "Ident", "Comma", "DecInt", "RParen", "Eol"],
     "while-body": ["While", "LParen", "DecInt", "RParen", "Eol"],
     "row-then": ["DecInt", "DecInt", "Eol"],
+    "bits-then": ["Bits", "LParen", "DecInt", "Comma", "DecInt", "RParen"],     # a row whose first entry spans k columns
 }
 
 
